@@ -77,11 +77,10 @@ class Sodium(material.Fluid):
         g = 511.58
         h = 0.5
         Tcrit = 2503.7  # critical temperature
-        return (
-            critDens
-            + f * (1 - (Tc + 273.15) / Tcrit)
-            + g * (1 - (Tc + 273.15) / Tcrit) ** h
-        ) / 1000.0  # convert from kg/m^3 to g/cc.
+        # At the upper limit of the correlation, Tc + 273.15 can exceed Tcrit by one ulp; a negative
+        # base would turn the root (and the density) into a complex number.
+        reducedT = max(0.0, 1 - (Tc + 273.15) / Tcrit)
+        return (critDens + f * reducedT + g * reducedT**h) / 1000.0  # convert from kg/m^3 to g/cc.
 
     def specificVolumeLiquid(self, Tk=None, Tc=None):
         """Returns the liquid specific volume in m^3/kg of this material given Tk in K or Tc in C."""
